@@ -118,6 +118,10 @@ VT = {'Param': nnx.Param, 'BatchStat': nnx.BatchStat, 'Cache': nnx.Cache, 'Custo
 COLOF = {'Param': 'params', 'BatchStat': 'batch_stats', 'Cache': 'cache', 'Custom': 'Custom', 'SubParam': 'SubParam'}
 
 
+def _double_on_read(variable, value):
+  return value * 2
+
+
 class Sub(nnx.Module):
   pass
 
@@ -131,7 +135,9 @@ class NMod(nnx.Module):
         if not hasattr(node, k):
           setattr(node, k, Sub())
         node = getattr(node, k)
-      setattr(node, v['path'][-1], VT[v['type']](jnp.asarray(np.array(v['val'], dtype=np.int64))))
+      # optionally a per-instance hook and no other metadata: reads see twice the stored value
+      kw = {'on_get_value': _double_on_read} if v.get('hook') else {}
+      setattr(node, v['path'][-1], VT[v['type']](jnp.asarray(np.array(v['val'], dtype=np.int64)), **kw))
 
   def _var(self, i):
     x = self
@@ -168,7 +174,7 @@ def nstate(m, desc):
     x = m
     for k in v['path']:
       x = getattr(x, k)
-    out.setdefault(COLOF[v['type']], {})['/'.join(v['path'])] = [int(a) for a in np.asarray(x.value).reshape(-1)]
+    out.setdefault(COLOF[v['type']], {})['/'.join(v['path'])] = [int(a) for a in np.asarray(x.raw_value).reshape(-1)]
   return out
 
 
@@ -301,10 +307,39 @@ def probe():
   return out
 
 
+def registry_case(c, uid):
+  """a history of register_variable_name / variable_name_from_type / variable_type_from_name on names and classes of its own"""
+  classes = [type('C18R%d_%d' % (uid, k), (nnx.Variable,), {}) for k in range(c['ntypes'])]
+  nm = lambda k: ('c18r%d_n%d' % (uid, k)) if k < 100 else classes[k - 100].__name__       # names 100+k are the class names
+  out = []
+  for o in c['ops']:
+    try:
+      if o[0] == 'reg':
+        variablelib.register_variable_name(nm(o[1]), classes[o[2]], overwrite=o[3])
+        out.append(['ok'])
+      elif o[0] == 'name_of':
+        out.append(['name', variablelib.variable_name_from_type(classes[o[1]], allow_register=o[2])])
+      else:
+        t = variablelib.variable_type_from_name(nm(o[1]))
+        out.append(['type', classes.index(t) if t in classes else -1])
+    except ValueError:
+      out.append(['err'])
+  names = {nm(k): k for k in list(range(c['nnames'])) + [100 + k for k in range(c['ntypes'])]}
+  return [[r[0], names.get(r[1], -1)] if r[0] == 'name' else r for r in out]
+
+
 def main(payload):
   if payload.get('probe'):
     return probe()
   res = {'tonnx': [], 'tolinen': []}
+  if 'registry' in payload:
+    res['registry'] = []
+    for i, c in enumerate(payload['registry']):
+      try:
+        res['registry'].append({'ok': registry_case(c, payload.get('uid', 0) * 10000 + i)})
+      except Exception as e:  # pylint: disable=broad-except
+        import traceback
+        res['registry'].append({'err': type(e).__name__, 'tb': traceback.format_exc()[-700:]})
   for i, c in enumerate(payload.get('tonnx', [])):
     try:
       res['tonnx'].append({'ok': tonnx_case(c, i)})
